@@ -27,18 +27,19 @@ type PropUnit struct {
 }
 
 type PropCfg struct {
-	ID          string     `json:"id"`
-	Title       string     `json:"title"`
-	Units       []PropUnit `json:"units"`
-	Explanation string     `json:"explanation"`
-	Assumptions []string   `json:"assumptions"`
-	Bounded     []string   `json:"bounded,omitempty"`
-	MinObligs   int        `json:"min_obligations"`
-	Extra       []string   `json:"extra_checks,omitempty"`
-	CFB         bool       `json:"cfb,omitempty"`
-	OnlySel     bool       `json:"only_selected,omitempty"` // do not attempt obligations outside the selection
-	Level       string     `json:"level,omitempty"`
-	KindPass    bool       `json:"kind_pass,omitempty"`     // C12: wrap-around kind discipline over every function
+	ID           string     `json:"id"`
+	Title        string     `json:"title"`
+	Units        []PropUnit `json:"units"`
+	Explanation  string     `json:"explanation"`
+	Assumptions  []string   `json:"assumptions"`
+	Bounded      []string   `json:"bounded,omitempty"`
+	MinObligs    int        `json:"min_obligations"`
+	Extra        []string   `json:"extra_checks,omitempty"`
+	CFB          bool       `json:"cfb,omitempty"`
+	OnlySel      bool       `json:"only_selected,omitempty"` // do not attempt obligations outside the selection
+	Level        string     `json:"level,omitempty"`
+	BoundedTests []string   `json:"bounded_tests,omitempty"` // Go tests under /verif/bounded run on the real code (bounded stand-ins)
+	KindPass     bool       `json:"kind_pass,omitempty"`     // C12: wrap-around kind discipline over every function
 }
 
 type KnownFinding struct {
@@ -254,6 +255,44 @@ func cmdCheck(args []string) {
 	if pc.CFB {
 		cfbRes = runCFBWorkers(*repo, *tier)
 	}
+	// bounded stand-ins: Go tests injected into the real package (never counted as proved)
+	type boundedRun struct {
+		Test     string  `json:"test"`
+		Tier     string  `json:"bounds"`
+		Passed   bool    `json:"passed"`
+		Coverage string  `json:"coverage"`
+		Seconds  float64 `json:"seconds"`
+	}
+	var boundedRuns []boundedRun
+	var boundedFailed []*Oblig
+	for _, bt := range pc.BoundedTests {
+		src, err := os.ReadFile(filepath.Join(*vdir, "bounded", bt))
+		if err != nil {
+			die(2, "bounded test %s: %v", bt, err)
+		}
+		tb := time.Now()
+		os.Setenv("VERIF_BOUND", *tier)
+		replayBudget++ // bounded tests do not consume the replay budget
+		rr := runReplayTest(*repo, string(src), "-run", "^TestVerifBounded$", "-v")
+		cov := ""
+		for _, ln := range strings.Split(rr.full, "\n") {
+			if strings.HasPrefix(ln, "BOUNDED-COVERAGE:") {
+				cov = strings.TrimSpace(strings.TrimPrefix(ln, "BOUNDED-COVERAGE:"))
+			}
+		}
+		passed := rr.Attempted && strings.Contains(rr.full, "\nok ") && !strings.Contains(rr.full, "BOUNDED-VIOLATION") && !strings.Contains(rr.full, "--- FAIL")
+		boundedRuns = append(boundedRuns, boundedRun{bt, *tier, passed, cov, time.Since(tb).Seconds()})
+		if !passed {
+			msg := ""
+			for _, ln := range strings.Split(rr.full, "\n") {
+				if strings.Contains(ln, "BOUNDED-VIOLATION") || strings.HasPrefix(ln, "panic:") {
+					msg = strings.TrimSpace(ln)
+					break
+				}
+			}
+			boundedFailed = append(boundedFailed, &Oblig{Name: "bounded:" + bt, Kind: "bounded", Fn: "bounded", Pos: "bounded/" + bt, Result: "failed", Solver: "go test", Output: truncate(msg+"\n"+rr.Output, 3000)})
+		}
+	}
 	// collect
 	type sample struct {
 		Name   string `json:"obligation"`
@@ -331,6 +370,7 @@ func cmdCheck(args []string) {
 			}
 		}
 	}
+	failed = append(failed, boundedFailed...)
 	if cfbRes != nil {
 		total += cfbRes.Trivial + cfbRes.Solver
 		discharged += cfbRes.Trivial + cfbRes.Discharged
@@ -493,6 +533,7 @@ func cmdCheck(args []string) {
 				"covers":                   map[string]int{"run": covers, "reachable_or_unknown": coversSat},
 				"known_findings":           knownHit,
 				"bounded":                  pc.Bounded,
+				"bounded_runs":             boundedRuns,
 				"assumed_unproved":         capList(assumedUnproved, 40),
 				"unselected_not_attempted": notAttempted,
 				"instances":                cfbInstancesInfo(cfbRes, *tier),
@@ -567,6 +608,11 @@ func writeReplay(vdir, prop string, o *Oblig, env *Env, repo string) replayInfo 
 		if src, ok := cfbReplayTest(o.Name); ok {
 			rr = runReplayTest(repo, src)
 		}
+	}
+	if o.Kind == "bounded" {
+		src, _ := os.ReadFile(filepath.Join(vdir, "bounded", strings.TrimPrefix(o.Name, "bounded:")))
+		rr = replayResult{Attempted: true, Reproduced: true, Test: string(src), Extra: []string{"-run", "^TestVerifBounded$", "-v"}, Output: o.Output,
+			Command: "go test -overlay <overlay> -vet=off -count=1 -run ^TestVerifBounded$ -v .  (the bounded test run on the real code)"}
 	}
 	if o.Kind == "kind" {
 		rr = runReplayTest(repo, fmt.Sprintf(wrapReplayTest))
